@@ -1,6 +1,9 @@
 """C05: failures are contained, reported, never recorded as success."""
-import enginecheck as ec
+import enginecheck as ec, histmodel
 from props import engcommon
 LEVEL = 'proof'; TRUSTED = engcommon.TRUSTED_ENGINE; ASSUMPTIONS = engcommon.ASSUMPTIONS_ENGINE
 def run(ctx):
     engcommon.run_engine_property(ctx, 'C05', plan_accept=600, oracles=[('failure', lambda h, st, b, prev: ec.oracle_c05(h, st, b, prev[1]))], faults=0.7, feat=dict(dyndep=0.2))
+    # the failing-command model (coq/Engine/HistFailDefs.v, theorems of Properties_C05hist.v) run against the real engine:
+    # one failing invocation (-j1 -k1) per history, then the invocations that follow
+    histmodel.hook(ctx, 'C05', fault=True, quick=300, thorough=3000, key='hist_model_failing_commands')
